@@ -17,6 +17,7 @@ CFG = {
         "Leptos.Store.C16_write_wakes_iff_related",
         "Leptos.Store.C16_run_subscribes",
         "Leptos.Store.C16_sees_written_value",
+        "Leptos.Store.C16_map_reader_subscribes",
         "Leptos.Store.C16_segment_collision_machine_regression",
         "Leptos.Store.C16_index_write_wakes_cousin_witness",
         "Leptos.Store.C16_keyed_field_misses_root_witness",
@@ -25,6 +26,8 @@ CFG = {
         "Leptos.Store.C16_patch_keyed_by_index_witness",
         "Leptos.Store.C16_stale_keys_panic_witness",
         "Leptos.Store.C16_removed_key_reader_not_dropped_witness",
+        "Leptos.Store.C16_option_map_woken_by_ancestor_write",
+        "Leptos.Store.C16_iter_unkeyed_misses_ancestor_witness",
         "Leptos.Store.C16_subscription_order_below_written_field",
         "Leptos.Store.mem_notifySet",
         "Leptos.Store.mem_trackSet",
@@ -40,19 +43,24 @@ CFG = {
         "Leptos.Store.runEff_plain",
         "Leptos.Store.notifyAll_noImm",
         "Leptos.Store.writeVia_fldIdx",
+        "Leptos.Store.trackAndRead_subs",
     ],
     "harness_pkg": "hx-c16",
     "harness_bin": "c16",
-    "n": {"quick": 6000, "thorough": 300000},
+    "n": {"quick": 8000, "thorough": 300000},
     "exhaustive": {"quick": False, "thorough": False},
     "trivial_tags": ["plain"],
     "rule": "a case is one history on one real Store<Root> of the fixed #[derive(Store, Patch)] family (nested structs to depth 3, "
-            "Option field, Vec field, keyed Vec of structs at depth 1 and 2): readers (Effect on the controlled executor, or "
-            "ImmediateEffect to observe wake order; plain read or keyed iteration) followed by writes (.set/.update/.write()), "
-            "patches, keyed push/remove/swap/reverse and poll/idle steps. Generated: every (write chain, read chain) pair of the "
-            "family's 39 chains (all of them when n >= 2*pairs, else a seeded sample of n/2), then seeded histories in five flavours "
-            "(plain fields; keyed starting with <=1 key; keyed starting with >=2 keys; unkeyed list; mixed). Observable per op: the "
-            "woken effect ids and the run log (reader id : value seen). distinct = distinct op list; every case writes at least once",
+            "Option fields at depth 1 and 2, Vec field, keyed Vec of structs at depth 1 and 2, a Box field behind DerefedField with a "
+            "custom #[patch] closure). Readers are Effects on the controlled executor or ImmediateEffects (wake order), and read in every "
+            "public way: .get / .read / .with / .track+read_untracked, OptionStoreExt::map / invert / unwrap, Field and ArcField handles "
+            "(the accessor erased at any position of the chain when the reader is created), DerefedField, AtIndex, AtKeyed, iteration "
+            "(for over a keyed field, iter_unkeyed) reading every item. Ops: .set/.update/.write(), patch, keyed push/remove/swap/reverse, "
+            "poll/idle. Generated: every (write chain, read chain) pair of the family's chains with a random way of reading (all pairs when "
+            "n >= 2*pairs, else a seeded sample of n/2), then seeded histories in six flavours (plain fields; keyed starting with <=1 key; "
+            "keyed starting with >=2 keys; unkeyed list; mixed; option cycles: both Option fields go Some->None->Some through set and patch "
+            "at every ancestor level under every reader kind). Observable per op: the woken effect ids and the run log (reader id : value "
+            "seen). distinct = distinct op list; every case writes at least once",
     "trusted": [
         "reactive_graph Effect / ImmediateEffect / ArcTrigger (modelled: ordered SubscriberSet taken on notify, woken flag, run = clear sources + retrack)",
         "hx_common::sched controlled executor (ready list = woken live tasks in spawn order)",
@@ -63,7 +71,7 @@ CFG = {
                  "AtIndex::{writer,track}", "KeyedSubfield::{writer,track_field,update_keys,into_iter}", "KeyedSubfieldWriteGuard::drop",
                  "AtKeyed::{path,reader,writer}", "FieldKeys::{new,update,next_key}", "KeyMap::with_field_keys",
                  "Patch::patch / PatchField for primitives, Option, Vec and #[derive(Patch)] structs", "OptionStoreExt::unwrap"],
-    "assumptions": ["enum stores, Field/ArcField type erasure, DerefedField and map()/invert() are not exercised",
+    "assumptions": ["enum stores (variant accessors) are not exercised; a Subfield built on an erased handle of a keyed item (frozen path) is not exercised",
                     "single thread; no nested keyed collections; key function = first field of the item"],
     "manifest": {
         "category": "proof",
